@@ -188,7 +188,7 @@ func budget(tier string) time.Duration {
 		}
 	}
 	if tier == "thorough" {
-		return 40 * time.Minute
+		return 15 * time.Minute
 	}
 	return 150 * time.Second
 }
@@ -473,7 +473,7 @@ func runReplay(path string, verbose bool) int {
 		fmt.Fprintln(os.Stderr, "replay diverged:", err1, err2)
 		return 2
 	}
-	if strings.Join(log1, "\n") != strings.Join(log2, "\n") {
+	if canonLog(log1, sigs1) != canonLog(log2, sigs2) {
 		if rf.Clause == "deterministic-replay" {
 			if verbose {
 				fmt.Println("two replays of the same trace differ: the recorded nondeterminism is reproduced")
@@ -483,7 +483,6 @@ func runReplay(path string, verbose bool) int {
 		fmt.Fprintln(os.Stderr, "replay nondeterministic")
 		return 2
 	}
-	_ = sigs2
 	if verbose {
 		for _, l := range log1 {
 			fmt.Println(l)
@@ -501,6 +500,20 @@ func runReplay(path string, verbose bool) int {
 		fmt.Println("not reproduced")
 	}
 	return 0
+}
+
+// canonLog is what two replays must agree on: every step's outcome and store diff, and the set of violated
+// signatures (oracles may list several violations of one step in any order).
+func canonLog(log []string, sigs []string) string {
+	var keep []string
+	for _, l := range log {
+		if !strings.HasPrefix(l, "    !!") {
+			keep = append(keep, l)
+		}
+	}
+	ss := append([]string{}, sigs...)
+	sort.Strings(ss)
+	return strings.Join(keep, "\n") + "\n" + strings.Join(ss, "\n")
 }
 
 func replayOnce(rs *RunSpec, trace []string) (sigs []string, log []string, err error) {
